@@ -16,7 +16,7 @@ theorem mem_addKey_of_mem {keys : List Name} {m : Name} (n : Name) (h : m ∈ ke
 
 theorem step_def_blocked {s : St} {o : Op} (hb : s.blocked = true) (ho : o.isDef = true) :
     step s o = (s, .refused) := by
-  cases o <;> simp_all [Op.isDef, step, accepted, set, setDefault, addFactory, addDefaultFactory]
+  cases o <;> simp_all [Op.isDef, step, accepted, set, setDefault, addFactory, addDefaultFactory, addInjectors]
 
 /-! ### the invariant of histories -/
 
@@ -104,15 +104,25 @@ theorem Get_step {s : St} (h : Inv s) (n : Name) : Step s (Get s n).1 :=
 theorem Get_notex {s : St} (h : Inv s) (n : Name) : (Get s n).1.exhausted = false :=
   get_notex _ s n h.fuelOK
 
+theorem InjectTo_fst (s : St) (fs : List Field) : (InjectTo s fs).1 = (InjectOwn s fs).1 :=
+  injectAll_fst _ s fs
+
 /-- `InjectTo` from outside -/
 theorem InjectTo_stepR {s : St} (h : Inv s) (fs : List Field) :
     StepR s (InjectTo s fs).1 ∧ (InjectTo s fs).1.exhausted = false := by
+  rw [InjectTo_fst]
   have hr := injectFields_rel (g := get (fuelFor s)) (P := FuelOK (fuelFor s)) (R := StepR)
     (fun _ _ => Or.inl rfl) (fun _ _ _ => StepR.trans)
     (fun s' n hs => ⟨get_fuelOK n hs, Or.inr (get_step _ s' n hs.pre)⟩) fs s h.fuelOK
   have hi := injectFields_inv (g := get (fuelFor s)) (P := FuelOK (fuelFor s))
     (fun s' n hs => get_fuelOK n hs) fs s h.fuelOK
   exact ⟨hr, hi.notex⟩
+
+theorem inv_addInjectors {s : St} (h : Inv s) (l : List Injector) : Inv (addInjectors s l).1 := by
+  unfold addInjectors
+  split
+  · exact h
+  · exact ⟨h.stack, h.fac_keys, h.dfac_keys, h.notex, h.norerun, h.done_inst, h.nodup, h.fresh_log⟩
 
 theorem inv_set {s : St} (h : Inv s) (n : Name) (v : Inst) : Inv (set s n v).1 := by
   unfold set
@@ -236,6 +246,10 @@ theorem inv_step {s : St} (h : Inv s) (o : Op) : Inv (step s o).1 := by
   | get n => exact h.of_step (Get_step h n) (Get_notex h n)
   | injectTo fs => exact h.of_stepR (InjectTo_stepR h fs).1 (InjectTo_stepR h fs).2
   | keys => exact h
+  | setNil n => exact inv_set h n _
+  | setDefaultNil n => exact inv_setDefault h n _
+  | addInjectors l => exact inv_addInjectors h l
+  | injectBad => exact h
 
 theorem inv_exec {s : St} (h : Inv s) (ops : List Op) : Inv (exec s ops) := by
   induction ops generalizing s with
@@ -285,32 +299,45 @@ theorem Grow.of_tables {s s' : St} (hi : ∀ n i, s.instances n = some i → s'.
     (hb : s'.blocked = s.blocked) (hl : s'.log = s.log) (hnb : ¬ s.blocked = true) : Grow s s' :=
   ⟨hi, fun h => hb ▸ h, fun h => absurd h hnb, [], by simp [hl], fun _ _ h => nomatch h⟩
 
+theorem grow_set {s : St} (n : Name) (v : Inst) : Grow s (set s n v).1 := by
+  simp only [set]
+  split
+  · exact Grow.refl _
+  · split
+    · exact Grow.refl _
+    · split
+      · exact Grow.refl _
+      · rename_i hb hi _
+        refine Grow.of_tables ?_ rfl rfl hb
+        intro m i hm
+        have hne : m ≠ n := by intro e; subst e; simp [hm] at hi
+        show s.instances.set n _ m = some i
+        rw [Tab.set_ne _ _ hne]; exact hm
+
+theorem grow_setDefault {s : St} (n : Name) (v : Inst) : Grow s (setDefault s n v).1 := by
+  simp only [setDefault]
+  split
+  · exact Grow.refl _
+  · split
+    · exact Grow.refl _
+    · split
+      · exact Grow.refl _
+      · rename_i hb _ _
+        exact Grow.of_tables (fun _ _ h => h) rfl rfl hb
+
 theorem grow_step {s : St} (h : Inv s) (o : Op) : Grow s (step s o).1 := by
   cases o with
-  | set n v =>
-    simp only [step, accepted, set]
+  | set n v => exact grow_set n _
+  | setDefault n v => exact grow_setDefault n _
+  | setNil n => exact grow_set n _
+  | setDefaultNil n => exact grow_setDefault n _
+  | addInjectors l =>
+    simp only [step, accepted, addInjectors]
     split
     · exact Grow.refl _
-    · split
-      · exact Grow.refl _
-      · split
-        · exact Grow.refl _
-        · rename_i hb hi _
-          refine Grow.of_tables ?_ rfl rfl hb
-          intro m i hm
-          have hne : m ≠ n := by intro e; subst e; simp [hm] at hi
-          show s.instances.set n _ m = some i
-          rw [Tab.set_ne _ _ hne]; exact hm
-  | setDefault n v =>
-    simp only [step, accepted, setDefault]
-    split
-    · exact Grow.refl _
-    · split
-      · exact Grow.refl _
-      · split
-        · exact Grow.refl _
-        · rename_i hb _ _
-          exact Grow.of_tables (fun _ _ h => h) rfl rfl hb
+    · rename_i hb
+      exact Grow.of_tables (fun _ _ h => h) rfl rfl hb
+  | injectBad => exact Grow.refl _
   | addFactory n f =>
     simp only [step, accepted, addFactory]
     obtain ⟨_, _, _, _, c5, c6, _, c8⟩ := clean_sub s n
@@ -365,50 +392,66 @@ theorem Get_of_inst {s : St} (h : Inv s) {n : Name} {i : Inst} (hi : s.instances
   rw [this, get_succ]
   simp [h.stack, hb]
 
-/-- … and by every field of an `InjectTo` that names it -/
+/-- … and by every field of an `InjectTo` that names it (a `nil` object is refused instead) -/
 theorem injectFields_vals {g : St → Name → St × Res} {Q : St → Prop} {n : Name} {i : Inst}
-    (hQ : ∀ s m, Q s → Q (g s m).1) (hn : ∀ s, Q s → (g s n).2 = .inst i) :
-    ∀ (fs : List Field) (s : St), Q s → ∀ (k : Nat) (fld : Field) (v : Option Inst),
-      fs[k]? = some fld → fld.name = n → (injectFields g s fs).2.1[k]? = some v → v = some i := by
+    (hQ : ∀ s m, Q s → Q (g s m).1) (hn : ∀ s, Q s → (g s n).2 = .inst i) (hnil : i ≠ .nil) :
+    ∀ (fs : List Field) (s : St), Q s → ∀ (k : Nat) (fld : Field) (opt : Bool) (v : Option Inst),
+      fs[k]? = some fld → fld.dep = some (n, opt) → (injectFields g s fs).2.1[k]? = some v → v = some i := by
   intro fs
   induction fs with
-  | nil => intro s _ k fld v hk; simp at hk
+  | nil => intro s _ k fld opt v hk; simp at hk
   | cons f rest ih =>
-    intro s hs k fld v hk hname hv
-    have hq1 := hQ s f.name hs
+    intro s hs k fld opt v hk hname hv
     unfold injectFields at hv
-    cases hr : g s f.name with
-    | mk s1 r =>
-      rw [hr] at hv hq1
-      cases k with
-      | zero =>
-        simp at hk
-        subst hk
-        have := hn s hs
-        rw [← hname, hr] at this
+    cases k with
+    | zero =>
+      simp at hk
+      subst hk
+      rw [hname] at hv
+      simp only at hv
+      have := hn s hs
+      cases hr : g s n with
+      | mk s1 r =>
+        rw [hr] at hv this
         simp only at this
         subst this
-        simp at hv
+        simp [hnil] at hv
         exact hv.symm
-      | succ k =>
-        simp at hk
-        cases r with
-        | inst j =>
-          simp at hv
-          exact ih s1 hq1 k fld v hk hname hv
-        | err e =>
-          cases ho : f.optional
-          · simp [ho] at hv
-          · simp [ho] at hv
-            exact ih s1 hq1 k fld v hk hname hv
+    | succ k =>
+      simp at hk
+      cases hd : f.dep with
+      | none =>
+        rw [hd] at hv
+        simp at hv
+        exact ih s hs k fld opt v hk hname hv
+      | some p =>
+        obtain ⟨m, o⟩ := p
+        rw [hd] at hv
+        simp only at hv
+        have hq1 := hQ s m hs
+        cases hr : g s m with
+        | mk s1 r =>
+          rw [hr] at hv hq1
+          cases r with
+          | inst j =>
+            by_cases hj : j = .nil
+            · simp [hj] at hv
+            · simp [hj] at hv
+              exact ih s1 hq1 k fld opt v hk hname hv
+          | err e =>
+            cases o
+            · simp at hv
+            · simp at hv
+              exact ih s1 hq1 k fld opt v hk hname hv
 
-theorem InjectTo_of_inst {s : St} (h : Inv s) {n : Name} {i : Inst} (hi : s.instances n = some i)
-    (fs : List Field) (k : Nat) (fld : Field) (v : Option Inst) (hk : fs[k]? = some fld)
-    (hname : fld.name = n) (hv : (InjectTo s fs).2.1[k]? = some v) : v = some i := by
+theorem InjectOwn_of_inst {s : St} (h : Inv s) {n : Name} {i : Inst} (hi : s.instances n = some i)
+    (hnil : i ≠ .nil)
+    (fs : List Field) (k : Nat) (fld : Field) (opt : Bool) (v : Option Inst) (hk : fs[k]? = some fld)
+    (hname : fld.dep = some (n, opt)) (hv : (InjectOwn s fs).2.1[k]? = some v) : v = some i := by
   have hf : fuelFor s = s.keys.length + 1 := by simp [fuelFor, h.stack]
   refine injectFields_vals (g := get (fuelFor s))
     (Q := fun s' => FuelOK (fuelFor s) s' ∧ s'.callstack = [] ∧ s'.instances n = some i)
-    ?_ ?_ fs s ⟨h.fuelOK, h.stack, hi⟩ k fld v hk hname hv
+    ?_ ?_ hnil fs s ⟨h.fuelOK, h.stack, hi⟩ k fld opt v hk hname hv
   · intro s' m ⟨h1, h2, h3⟩
     have hs := get_step (fuelFor s) s' m h1.pre
     exact ⟨get_fuelOK m h1, by rw [hs.callstack, h2], hs.inst_mono n i h3⟩
@@ -426,7 +469,7 @@ theorem injectFields_val_inst {g : St → Name → St × Res} {P : St → Prop}
     (hi : ∀ s n i, (g s n).2 = .inst i → (g s n).1.instances n = some i) :
     ∀ (fs : List Field) (s : St), P s → ∀ (k : Nat) (fld : Field) (i : Inst), fs[k]? = some fld →
       (injectFields g s fs).2.1[k]? = some (some i) →
-      (injectFields g s fs).1.instances fld.name = some i := by
+      ∃ n opt, fld.dep = some (n, opt) ∧ (injectFields g s fs).1.instances n = some i := by
   intro fs
   induction fs with
   | nil => intro s _ k fld i hk; simp at hk
@@ -435,66 +478,104 @@ theorem injectFields_val_inst {g : St → Name → St × Res} {P : St → Prop}
     have hmono : ∀ s', P s' → InstMono s' (injectFields g s' rest).1 :=
       fun s' hs' => injectFields_rel (P := P) (R := InstMono) (fun _ _ _ _ h => h)
         (fun _ _ _ h1 h2 m i h => h2 m i (h1 m i h)) hg rest s' hs'
-    have h0 := hg s f.name hs
-    have hi0 := hi s f.name
     unfold injectFields at hv ⊢
-    cases hr : g s f.name with
-    | mk s1 r =>
-      rw [hr] at hv h0 hi0
+    cases hd : f.dep with
+    | none =>
+      rw [hd] at hv
+      simp only at hv ⊢
       cases k with
-      | zero =>
-        simp at hk
-        subst hk
-        cases r with
-        | inst j =>
-          simp at hv
-          subst hv
-          exact hmono s1 h0.1 _ _ (hi0 j rfl)
-        | err e => cases ho : f.optional <;> simp [ho] at hv
+      | zero => simp at hv
       | succ k =>
-        simp at hk
-        cases r with
-        | inst j =>
-          simp at hv
-          exact ih s1 h0.1 k fld i hk hv
-        | err e =>
-          cases ho : f.optional
-          · simp [ho] at hv
-          · simp [ho] at hv ⊢
-            exact ih s1 h0.1 k fld i hk hv
+        simp at hk hv
+        exact ih s hs k fld i hk hv
+    | some p =>
+      obtain ⟨m, o⟩ := p
+      rw [hd] at hv
+      simp only at hv ⊢
+      have h0 := hg s m hs
+      have hi0 := hi s m
+      cases hr : g s m with
+      | mk s1 r =>
+        rw [hr] at hv h0 hi0
+        cases k with
+        | zero =>
+          simp at hk
+          subst hk
+          cases r with
+          | inst j =>
+            by_cases hj : j = .nil
+            · simp [hj] at hv
+            · simp [hj] at hv
+              simp only [hj, ↓reduceIte]
+              subst hv
+              exact ⟨m, o, hd, hmono s1 h0.1 _ _ (hi0 j rfl)⟩
+          | err e => cases o <;> simp at hv
+        | succ k =>
+          simp at hk
+          cases r with
+          | inst j =>
+            by_cases hj : j = .nil
+            · simp [hj] at hv
+            · simp [hj] at hv
+              simp only [hj, ↓reduceIte]
+              exact ih s1 h0.1 k fld i hk hv
+          | err e =>
+            cases o
+            · simp at hv
+            · simp at hv
+              simp only [↓reduceIte]
+              exact ih s1 h0.1 k fld i hk hv
 
-theorem InjectTo_val_inst {s : St} (h : Inv s) (fs : List Field) (k : Nat) (fld : Field) (i : Inst)
-    (hk : fs[k]? = some fld) (hv : (InjectTo s fs).2.1[k]? = some (some i)) :
-    (InjectTo s fs).1.instances fld.name = some i :=
+theorem InjectOwn_val_inst {s : St} (h : Inv s) (fs : List Field) (k : Nat) (fld : Field) (i : Inst)
+    (hk : fs[k]? = some fld) (hv : (InjectOwn s fs).2.1[k]? = some (some i)) :
+    ∃ n opt, fld.dep = some (n, opt) ∧ (InjectOwn s fs).1.instances n = some i :=
   injectFields_val_inst (g := get (fuelFor s)) (P := FuelOK (fuelFor s))
     (fun s' n hs => ⟨get_fuelOK n hs, (get_step _ s' n hs.pre).inst_mono⟩)
     (fun _ _ _ h => get_inst h) fs s h.fuelOK k fld i hk hv
 
 /-! ### the freeze -/
 
+theorem injectFields_blocked {fuel : Nat} : ∀ (fs : List Field) (s : St), Pre s →
+    (fs.any fun f => f.dep.isSome) = true → (injectFields (get fuel) s fs).1.blocked = true := by
+  intro fs
+  induction fs with
+  | nil => intro s _ h; simp at h
+  | cons f rest ih =>
+    intro s hp hany
+    have hP : ∀ s' m, s'.blocked = true → (get fuel s' m).1.blocked = true :=
+      fun s' m hb => (get_step _ s' m (Or.inl hb)).blocked
+    unfold injectFields
+    cases hd : f.dep with
+    | none =>
+      simp only
+      refine ih s hp ?_
+      simpa [hd] using hany
+    | some p =>
+      obtain ⟨n, opt⟩ := p
+      simp only
+      have h1 := get_step fuel s n hp
+      have h2 := injectFields_inv (g := get fuel) (P := fun s' => s'.blocked = true) hP rest _ h1.blocked
+      cases hr : get fuel s n with
+      | mk s1 r =>
+        rw [hr] at h1 h2
+        cases r with
+        | inst i =>
+          by_cases hi : i = .nil
+          · simpa [hi] using h1.blocked
+          · simpa [hi] using h2
+        | err e =>
+          cases opt
+          · simpa using h1.blocked
+          · simpa using h2
+
 theorem blocked_of_resolution {s : St} (h : Inv s) {o : Op} (ho : o.isResolution = true) :
     (step s o).1.blocked = true := by
   cases o with
   | get n => exact (Get_step h n).blocked
   | injectTo fs =>
-    cases fs with
-    | nil => simp [Op.isResolution] at ho
-    | cons f rest =>
-      show (injectFields (get (fuelFor s)) s (f :: rest)).1.blocked = true
-      have h1 := get_step (fuelFor s) s f.name h.pre
-      have hP : ∀ s' m, s'.blocked = true → (get (fuelFor s) s' m).1.blocked = true :=
-        fun s' m hb => (get_step _ s' m (Or.inl hb)).blocked
-      have h2 := injectFields_inv (g := get (fuelFor s)) (P := fun s' => s'.blocked = true) hP rest _ h1.blocked
-      unfold injectFields
-      cases hr : get (fuelFor s) s f.name with
-      | mk s1 r =>
-        rw [hr] at h1 h2
-        cases r with
-        | inst i => exact h2
-        | err e =>
-          cases ho' : f.optional
-          · simpa using h1.blocked
-          · simpa using h2
+    show (InjectTo s fs).1.blocked = true
+    rw [InjectTo_fst]
+    exact injectFields_blocked fs s h.pre ho
   | _ => simp [Op.isResolution] at ho
 
 end Goat.DI
